@@ -545,16 +545,19 @@ def merge_file_level(
 
         old_value, field = fields[name]
 
+        current_value = getattr(new, name)
+        setattr(new, name, value)
         try:
+            # note, a validator may replace the value on the instance
+            # with a normalised one (e.g. a list of extensions by a set)
             validate_field(new, field, value)
         except Exception as exc:
+            setattr(new, name, current_value)
             warning(MystWarnings.MD_TOPMATTER, str(exc))
             continue
 
         if field.metadata.get("merge_topmatter"):
-            value = {**old_value, **value}
-
-        setattr(new, name, value)
+            setattr(new, name, {**old_value, **getattr(new, name)})
 
     return new
 
